@@ -1,3 +1,109 @@
-"""Structural extractors (tables, branch skeletons, effect skeletons) registered with the
-translator.  Each takes (repo, spec) and returns (coq_text, stamp) or raises TranslateError."""
-from translate import register_extractor, TranslateError, Source  # noqa: F401
+"""Structural extractors (branch skeletons, guard conjunctions, effect skeletons) registered
+with the translator.  Each takes (repo, spec) and returns (coq_text, stamp) or raises
+TranslateError.  They emit plain data (strings, lists) about *which* code is where; the
+theorems then contain side conditions on that data (e.g. "the overlap test is one of the
+conjuncts guarding add_positions") that are re-checked on every run."""
+import ast
+
+from translate import register_extractor, TranslateError, Source, coq_string  # noqa: F401
+
+
+def _flatten_and(node):
+    if isinstance(node, ast.BoolOp) and isinstance(node.op, ast.And):
+        out = []
+        for v in node.values:
+            out += _flatten_and(v)
+        return out
+    return [node]
+
+
+def _calls_attr(stmts, attr):
+    for st in stmts:
+        for n in ast.walk(st):
+            if isinstance(n, ast.Call) and isinstance(n.func, ast.Attribute) and n.func.attr == attr:
+                return n
+    return None
+
+
+def guard_conjuncts(repo, spec):
+    """conjuncts of the `if` whose body directly performs the call `.<attr>(...)`;
+    every call of that attribute inside func must sit under exactly such a guard"""
+    src = Source(repo, spec['file'])
+    fn = src.find_def(spec['func'])
+    guards = []
+    for n in ast.walk(fn):
+        if isinstance(n, ast.If) and _calls_attr(n.body, spec['attr']) is not None:
+            inner = [m for m in ast.walk(n) if isinstance(m, ast.If) and m is not n and _calls_attr(m.body, spec['attr']) is not None]
+            if not inner:
+                guards.append(n)
+    ncalls = len([n for n in ast.walk(fn) if isinstance(n, ast.Call) and isinstance(n.func, ast.Attribute)
+                  and n.func.attr == spec['attr']])
+    if len(guards) != 1 or ncalls != 1:
+        raise TranslateError(f"{spec['file']}: expected exactly one guarded call of {spec['attr']} in {spec['func']}, "
+                             f"found {ncalls} calls under {len(guards)} guards")
+    g = guards[0]
+    conj = [ast.unparse(c) for c in _flatten_and(g.test)]
+    call = _calls_attr(g.body, spec['attr'])
+    where, sha = src.stamp(g)
+    items = "; ".join(coq_string(c) for c in conj)
+    text = (f"(* {spec['name']} <- {where} sha256={sha} *)\n"
+            f"Definition {spec['name']} : list string := [{items}].\n"
+            f"Definition {spec['name']}_call : string := {coq_string(ast.unparse(call))}.\n")
+    return text, {'name': spec['name'], 'where': where, 'sha256': sha}
+
+
+def return_expr(repo, spec):
+    src = Source(repo, spec['file'])
+    fn = src.find_def(spec['func'])
+    rets = [n for n in ast.walk(fn) if isinstance(n, ast.Return)]
+    if len(rets) != 1 or rets[0].value is None:
+        raise TranslateError(f"{spec['file']}: {spec['func']} does not have exactly one return expression")
+    where, sha = src.stamp(rets[0])
+    text = (f"(* {spec['name']} <- {where} sha256={sha} *)\n"
+            f"Definition {spec['name']} : string := {coq_string(ast.unparse(rets[0].value))}.\n")
+    return text, {'name': spec['name'], 'where': where, 'sha256': sha}
+
+
+def flag_branches(repo, spec):
+    """`if self.<flag>: X = nx.A(...) else: X = nx.B(...)` -> names A and B"""
+    src = Source(repo, spec['file'])
+    fn = src.find_def(spec['func'])
+    hits = [n for n in ast.walk(fn) if isinstance(n, ast.If) and ast.unparse(n.test) == spec['test']]
+    if len(hits) != 1:
+        raise TranslateError(f"{spec['file']}: expected one `if {spec['test']}` in {spec['func']}, found {len(hits)}")
+    n = hits[0]
+
+    def callee(stmts):
+        if len(stmts) != 1 or not isinstance(stmts[0], ast.Assign) or not isinstance(stmts[0].value, ast.Call):
+            raise TranslateError(f"{spec['file']}:{n.lineno}: branch is not a single assignment of a call")
+        return ast.unparse(stmts[0].value.func), ast.unparse(stmts[0].value)
+    a, atext = callee(n.body)
+    b, btext = callee(n.orelse)
+    where, sha = src.stamp(n)
+    text = (f"(* {spec['name']} <- {where} sha256={sha} *)\n"
+            f"Definition {spec['name']}_true : string := {coq_string(a)}.\n"
+            f"Definition {spec['name']}_false : string := {coq_string(b)}.\n"
+            f"Definition {spec['name']}_true_call : string := {coq_string(atext)}.\n")
+    return text, {'name': spec['name'], 'where': where, 'sha256': sha}
+
+
+def assign_text(repo, spec):
+    """source text of the unique assignment `var = ...` in func (for call-shape side conditions)"""
+    src = Source(repo, spec['file'])
+    fn = src.find_def(spec['func'])
+    hits = [n for n in ast.walk(fn) if isinstance(n, ast.Assign) and len(n.targets) == 1
+            and ast.unparse(n.targets[0]) == spec['var']]
+    if spec.get('first'):
+        hits = hits[:1]
+    if len(hits) != 1:
+        raise TranslateError(f"{spec['file']}: expected one assignment to {spec['var']} in {spec['func']}, found {len(hits)}")
+    where, sha = src.stamp(hits[0])
+    text = (f"(* {spec['name']} <- {where} sha256={sha} *)\n"
+            f"Definition {spec['name']} : string := {coq_string(ast.unparse(hits[0].value))}.\n")
+    return text, {'name': spec['name'], 'where': where, 'sha256': sha}
+
+
+register_extractor('guard_conjuncts', guard_conjuncts)
+register_extractor('return_expr', return_expr)
+register_extractor('flag_branches', flag_branches)
+register_extractor('assign_text', assign_text)
